@@ -7,6 +7,9 @@ correspondence leg   random nets of the grammar x precision tuples x coefficient
                      real MPS object (`is` identity); the model's export plan (in, w, out bits + candidate
                      indices) vs summary() vs the sampled one-hot coefficients vs the precision attributes
                      and object identities of the exported Quant* layers.
+                     Padding mode / padding / stride / dilation of a conv are part of the abstract per-layer
+                     map of the Lean model (`Sem.kernel`): nothing changes there, they are exercised by the
+                     end-to-end oracle only.
 oracle leg           the property itself on the real code: torch.equal(MPS.eval()(x), export().eval()(x));
                      exported bit-widths == summary(); input bit-width of every exported layer == output
                      bit-width of the exported module that produced its input (walked on the exported fx
@@ -124,7 +127,9 @@ def _gen_cases(rng, n):
     for k in range(n):
         # every fifth net puts a searchable module (depthwise conv / add) directly on the network input
         first = 'dw' if k % 10 == 3 else ('addin' if k % 10 == 7 else None)
-        desc = mc.gen_desc(rng, first=first)
+        # every other net draws Conv2d hyper-parameter variants (padding_mode, integer / 'same' / 'valid'
+        # padding, dilation) on top of kernel size / stride / bias
+        desc = mc.gen_desc(rng, first=first, conv_variants=(k % 2 == 0))
         cfg = mc.make_cfg(rng)
         if k % 4 == 1:
             cfg['ties'] = 1      # tie stream: exactly equal top coefficients; the selection is the first maximum
@@ -141,11 +146,17 @@ def _key(cls, what, ties=False):
 def _judge(chk, case, res):
     """oracle verdicts of one case -> violations"""
     for what, msg in res['fail']:
-        chk.violation(_key(res['class'], what, bool(case['cfg'].get('ties'))), msg, case)
+        key = _key(res['class'], what, bool(case['cfg'].get('ties')))
+        if what in ('output', 'exception') and any(mc._opts(i).get('pm', 'zeros') != 'zeros' for i in case['desc']['prog']
+                                                   if i[0] in ('conv', 'dw')):
+            key += ':non-zero-padding-mode'
+        chk.violation(key, msg, case)
 
 
 def run(chk):
-    chk.rule = ('random SSA nets of the grammar (Conv2d incl. depthwise, Conv-BN, Linear, Linear-BN, residual add '
+    chk.rule = ('random SSA nets of the grammar (Conv2d incl. depthwise, kernel 1/3, stride 1/2, bias on/off; every other net '
+                'also draws padding_mode in {zeros, reflect, replicate, circular}, padding in {k//2, 0, 1, 2, same, valid} '
+                'and dilation 1/2 per conv; Conv-BN, Linear, Linear-BN, residual add '
                 'with 1-2 layer branch, relu/relu6/none, avg/max pooling, flatten; every 5th net has a depthwise '
                 'conv or a residual add directly on the network input) x precision tuples: 1..3 values of {2,4,8} in '
                 'random order, drawn separately for weights / activations / network input x coefficients with gaps '
@@ -183,6 +194,13 @@ def run(chk):
                   bucket='class:' + r['class'])
         for o in ops:
             chk.hist['op:' + o] = chk.hist.get('op:' + o, 0) + 1
+        for ins in case['desc']['prog']:
+            if ins[0] in ('conv', 'dw'):
+                o_ = mc._opts(ins)
+                for hk in ('padding_mode:' + o_.get('pm', 'zeros'),
+                           'padding:' + (o_['pad'] if isinstance(o_.get('pad'), str) else ('default' if 'pad' not in o_ else 'other-int')),
+                           'dilation:%d' % o_.get('dil', 1), 'stride:%d' % ins[4 if ins[0] == 'conv' else 3]):
+                    chk.hist[hk] = chk.hist.get(hk, 0) + 1
         chk.hist['train_first=%d' % case['train_first']] = chk.hist.get('train_first=%d' % case['train_first'], 0) + 1
         chk.hist['T=%s' % case['cfg']['T']] = chk.hist.get('T=%s' % case['cfg']['T'], 0) + 1
         chk.hist['gumbel=%d' % case['cfg']['gumbel']] = chk.hist.get('gumbel=%d' % case['cfg']['gumbel'], 0) + 1
